@@ -83,6 +83,53 @@ func resolveLinks(v model.Value, links []datamodel.Link) (model.Value, error) {
 	return out, nil
 }
 
+// reifyRev is the ADL "rev" of Selector!Reify: a list with its elements, a map with its entries, in reverse order (the
+// children themselves are kept as they are); every other node is itself.
+func reifyRev(_ linking.LinkContext, n datamodel.Node, _ *linking.LinkSystem) (datamodel.Node, error) {
+	switch n.Kind() {
+	case datamodel.Kind_List:
+		var items []datamodel.Node
+		for itr := n.ListIterator(); !itr.Done(); {
+			_, v, err := itr.Next()
+			if err != nil {
+				return nil, err
+			}
+			items = append(items, v)
+		}
+		nb := basicnode.Prototype.List.NewBuilder()
+		la, _ := nb.BeginList(int64(len(items)))
+		for i := len(items) - 1; i >= 0; i-- {
+			if err := la.AssembleValue().AssignNode(items[i]); err != nil {
+				return nil, err
+			}
+		}
+		la.Finish()
+		return nb.Build(), nil
+	case datamodel.Kind_Map:
+		var ks, vs []datamodel.Node
+		for itr := n.MapIterator(); !itr.Done(); {
+			k, v, err := itr.Next()
+			if err != nil {
+				return nil, err
+			}
+			ks, vs = append(ks, k), append(vs, v)
+		}
+		nb := basicnode.Prototype.Map.NewBuilder()
+		ma, _ := nb.BeginMap(int64(len(ks)))
+		for i := len(ks) - 1; i >= 0; i-- {
+			if err := ma.AssembleKey().AssignNode(ks[i]); err != nil {
+				return nil, err
+			}
+			if err := ma.AssembleValue().AssignNode(vs[i]); err != nil {
+				return nil, err
+			}
+		}
+		ma.Finish()
+		return nb.Build(), nil
+	}
+	return n, nil
+}
+
 // BuildGraph stores the blocks bottom-up and returns the concretised graph.
 // The root block is handed to the walk as built (insertion order kept); linked blocks are loaded
 // through dag-cbor, so their maps must be given in canonical order by the specification's catalogue.
@@ -91,6 +138,7 @@ func BuildGraph(g []model.Value) (*Graph, error) {
 	gr.LS = cidlink.DefaultLinkSystem()
 	gr.LS.SetReadStorage(gr.Store)
 	gr.LS.SetWriteStorage(gr.Store)
+	gr.LS.KnownReifiers = map[string]linking.NodeReifier{"rev": reifyRev}
 	conc := model.Conc{}
 	for b := len(g); b >= 1; b-- {
 		cv, err := resolveLinks(g[b-1], gr.Links)
@@ -176,6 +224,8 @@ func SelectorDMT(s SelAST, links []datamodel.Link) datamodel.Node {
 		return mapNode("R", mapNode(kv...))
 	case "edge":
 		return mapNode("@", mapNode())
+	case "as":
+		return mapNode("~", mapNode("as", "rev", ">", SelectorDMT(s.Ss[0], links)))
 	}
 	panic("harness: selector type " + s.T)
 }
@@ -425,7 +475,7 @@ func ReplayWalk(cs *WalkCase, o WalkOpts) (*run.Finding, int) {
 		}
 		checks++
 	}
-	if o.Paths {
+	if o.Paths && !hasAs(cs.Sel) { // below a reified node paths are relative to the reified view (Traversal!VisitedPathsResolve)
 		if f := checkPaths(gr, cs, r, &checks); f != nil {
 			return f, checks
 		}
@@ -466,6 +516,18 @@ func controlName(c WalkCfg) string {
 		}
 	}
 	return strings.Join(parts, "+")
+}
+
+func hasAs(s SelAST) bool {
+	if s.T == "as" {
+		return true
+	}
+	for _, c := range s.Ss {
+		if hasAs(c) {
+			return true
+		}
+	}
+	return false
 }
 
 // checkPaths: C14 -- the Path objects handed to the callbacks are resolved again AFTER the walk.
